@@ -130,7 +130,7 @@ def side_check(ex, prev, aev, nxt):
                         {"all": [f"{s}: {t}" for s, t in probs[:8]]})
 
 
-HOSTS = ["c07", "c05"]
+HOSTS = ["c07", "c05", "c06"]
 
 
 def run(rep, tier):
